@@ -938,7 +938,8 @@ func newSSAEventFromItem(i Item) (e *ssaEvent) {
 		if len(l.VoiceName) > 0 {
 			e.name = l.VoiceName
 		}
-		lines = append(lines, strings.Join(items, " "))
+		// Items must contain their own space, adding one here makes the text grow every time it is read then written
+		lines = append(lines, strings.Join(items, ""))
 	}
 	e.text = strings.Join(lines, "\\n")
 	return
